@@ -21,7 +21,7 @@ args = ap.parse_args()
 owners = {}
 for l in open(os.path.join(ROOT, 'properties.jsonl')):
     p = json.loads(l)
-    for f in p['files']:
+    for f in p['anchors']['files']:
         owners.setdefault(f, []).append(p['id'])
 files = [f for f in args.files.split(',') if f] or sorted(owners)
 gomut = os.path.join(ROOT, 'bin', 'gomut')
